@@ -30,7 +30,7 @@ ASSUMPTIONS = [
 REQUIRED_MONITORS = ["curve_to_quadratic", "curves_to_quadratic", "quadratic_to_curves"]
 CASE_TIMEOUT = 900
 MANIFEST = {
-    "text": "Exploration: tens of thousands of generated cubic curves, master lists and quadratic splines are converted by the real functions; a post-condition monitor checks end points exactly, the deviation with an independent Bernstein-coefficient bound of the error curve backed by a parameter-free geometric distance, equal segment counts across masters, and that errors are not raised when a fitting spline of the same family exists. The unit tests only sample a few curves; the monitor judges every conversion executed, including those reached through the pens and glyph helpers.",
+    "text": "Exploration: tens of thousands of generated cubic curves, master lists and quadratic splines are converted by the real functions; a post-condition monitor checks end points exactly, the deviation with an independent Bernstein-coefficient bound of the error curve backed by a parameter-free geometric distance, equal segment counts across masters, and that errors are not raised when a fitting spline of the same family exists. Whole outlines are also driven through Cu2QuPen, Cu2QuPointPen, Cu2QuMultiPen and Qu2CuPen (chains of consecutive curves judged segment by segment, tip/cusp junctions, masters with points collapsed in some masters only, with and without direction reversal) and through glyphs_to_quadratic / fonts_to_quadratic with per-master tolerances and units-per-em; there the oracle compares the drawn input with the recorded output geometrically, because a pen handing the wrong curve to the converter is invisible to the per-call monitor. The unit tests only sample a few curves; the monitor judges every conversion executed, including those reached through the pens and glyph helpers.",
     "note": "Trusted base: vmon/oracle/bezier.py (de Casteljau, degree elevation, control-polygon bound, numpy polyline distance). Float noise allowance tol*1e-9 + 1e-12*scale. Cython-compiled variants are out of reach (not built here).",
     "technique": "post-condition monitors on the conversion functions; independent Bernstein bound + geometric Hausdorff oracle; seeded curve-family generator",
     "design_ref": "DESIGN.md §4 C13",
